@@ -51,8 +51,11 @@ static long long c_ret; static size_t c_inDelta, c_outDelta;
 #ifdef ZSTD_VERIF_TRACE
 #include "../lib/common/zstd_verif.h"
 static volatile int g_hlock = 0;
+static int g_hookWin = 0;      /* STREAMDRV_HOOKS=win : window events only (property C15); any other value: events of the MT compressor only */
 static void hook_cb(const char* ev, const void* ctx, long long a, long long b, long long c, long long d, long long e, long long f) {
     (void)ctx;
+    if ((ev[0] == 'w' && ev[1] == 'i' && ev[2] == 'n') != g_hookWin) return;
+    if (g_hookWin) { long long const lim = 0x7fffffffLL; if (a > lim || b > lim || c > lim || d > lim || e > lim || f > lim) { if (b > lim && ev[6] == 'M') b = lim; else ev = "winBig"; } }
     while (__atomic_exchange_n(&g_hlock, 1, __ATOMIC_ACQUIRE)) { }
     fprintf(T, "{\"e\":\"%s\",\"a\":%lld,\"b\":%lld,\"c\":%lld,\"d\":%lld,\"f\":%lld,\"g\":%lld}\n", ev, a, b, c, d, e, f);
     __atomic_store_n(&g_hlock, 0, __ATOMIC_RELEASE);
@@ -226,7 +229,7 @@ int main(int argc, char** argv) {
     S = fopen(argv[1], "r"); T = fopen(argv[2], "w"); if (!S || !T) return 2;
     if (getenv("STREAMDRV_LB")) setvbuf(T, NULL, _IOLBF, 0);   /* line-buffered: the trace survives an abort */
 #ifdef ZSTD_VERIF_TRACE
-    if (getenv("STREAMDRV_HOOKS")) ZSTD_verif_hook = hook_cb;
+    if (getenv("STREAMDRV_HOOKS")) { ZSTD_verif_hook = hook_cb; g_hookWin = !strcmp(getenv("STREAMDRV_HOOKS"), "win"); }
 #endif
     src = (unsigned char*)malloc(MAXSRC); cctx = ZSTD_createCCtx(); dctx = ZSTD_createDCtx(); zbc = ZBUFF_createCCtx();
     while (fgets(line, sizeof(line), S)) {
